@@ -14,7 +14,20 @@ impl Layout {
         Layout { regions }
     }
     pub fn region_of(&self, a: u128) -> Option<usize> {
-        self.regions.iter().position(|(s, l)| a >= *s && a < *s + *l)
+        if self.regions.len() <= 64 {
+            return self.regions.iter().position(|(s, l)| a >= *s && a < *s + *l);
+        }
+        // sorted and disjoint by construction: predecessor search
+        let i = self.regions.partition_point(|(s, _)| *s <= a);
+        if i == 0 {
+            return None;
+        }
+        let (s, l) = self.regions[i - 1];
+        if a < s + l {
+            Some(i - 1)
+        } else {
+            None
+        }
     }
     pub fn mapped(&self, a: u128) -> bool {
         a < TOP && self.region_of(a).is_some()
